@@ -4,6 +4,8 @@ already ordered by start.
 -/
 import Hts.Lemmas.FaiLayout
 import Hts.Lemmas.FaiText
+set_option linter.unusedVariables false
+set_option linter.unusedSimpArgs false
 namespace Hts.Lemmas.Fai
 open Hts.Model.Fai
 open Hts.Spec.Fasta (isGraphic isBase isDescByte isBlankByte Rec Eol Entry seqLines terminate blankLines
